@@ -1,14 +1,17 @@
 """C42 - Exports contain exactly the exported tree.
 
-Input enumeration: every parent-closed tree made of <= k (3 quick / 4 thorough) entries of a
-15-entry namespace with unusual names (empty and binary contents, space, non-ASCII, leading
+Input enumeration: every parent-closed tree made of <= k (3 quick / 4 thorough) entries of an
+18-entry namespace with unusual names (empty and binary contents, space, non-ASCII, leading
 dash, executable, nested and empty directories, a sibling whose name has the sub-directory
 as a prefix, symlinks at top level and inside the sub-directory, `.bzrignore`, a file
-`link.lnk` next to the symlink `link`) plus the full tree, committed as the second of two
+`link.lnk` next to the symlink `link`, and `.bzr*` names INSIDE the selectable sub-directories:
+`d/.bzrignore`, `d/e/.bzr-x/`, `d/e/.bzr-x/f` - ordinary content there) plus the full tree, committed as the second of two
 real revisions (so that last-changed revisions differ per file) of a dirstate tree / 2a
 repository on /dev/shm; x format {dir, tar, tgz, tbz2, txz, tlzma, zip} x root {None (derived from the
 destination name), "r", "", "r/s"} x sub-directory {None, "", "d", "d/", "d/e"} (those
-present in the tree) x per_file_timestamps.  breezy.export.export() is run on the revision
+present in the tree) x per_file_timestamps (quick: only for dir, tar, zip).  A second sub-run does
+the same for git trees (10-entry namespace with `d/.gitignore`, `d/e/.gitkeep`, `d/.git-x/f`; <= 2 / 3
+files chosen; signatures prefixed `git/`).  breezy.export.export() is run on the revision
 tree; archives are read back with the stdlib tarfile/zipfile/gzip/bz2/lzma modules,
 directory exports from disk.  Oracle (computed from the declarative tree, not from breezy):
 the members are exactly the entries of the (sub-)tree, each once, under the requested
@@ -52,9 +55,27 @@ NAMESPACE = [
     ("empty", D(b"empty-id")),
     (".bzrignore", F(b"ign-id", b"*.o\n")),
     ("link.lnk", F(b"lnk-id", b"not a link\n")),
+    # names that would be special to the VCS at the top of the tree, inside the selectable
+    # sub-directories: ordinary content there
+    ("d/.bzrignore", F(b"dign-id", b"*.pyc\n")),
+    ("d/e/.bzr-x", D(b"ebzrx-id")),
+    ("d/e/.bzr-x/f", F(b"ebzrxf-id", b"below a .bzr* directory\n")),
 ]
-PATHS = [p for p, _ in NAMESPACE]
-ENTRY = dict(NAMESPACE)
+# git trees: no empty directories, no file ids; the same idea with .git* names
+GIT_NAMESPACE = [
+    ("a", F(None, b"")),
+    ("x.sh", F(None, b"#!/bin/sh\necho hi\n", True)),
+    ("d", D(None)),
+    ("d/x", F(None, b"d/x contents\n")),
+    ("d/.gitignore", F(None, b"*.o\n")),
+    ("d/e", D(None)),
+    ("d/e/.gitkeep", F(None, b"")),
+    ("d/.git-x", D(None)),
+    ("d/.git-x/f", F(None, b"below a .git* directory\n")),
+    ("link", L(None, "a")),
+]
+PATHS = {"bzr": [p for p, _ in NAMESPACE], "git": [p for p, _ in GIT_NAMESPACE]}
+ENTRY = {"bzr": dict(NAMESPACE), "git": dict(GIT_NAMESPACE)}
 
 FORMATS_Q = ("dir", "tar", "tgz", "tbz2", "txz", "zip")
 FORMATS_T = FORMATS_Q + ("tlzma",)
@@ -63,31 +84,32 @@ EXT = {"tar": ".tar", "tgz": ".tar.gz", "tbz2": ".tar.bz2", "txz": ".tar.xz", "t
 SUBDIRS = (None, "", "d", "d/", "d/e")
 
 
-def close_under_parents(paths):
+def close_under_parents(paths, vcs="bzr"):
     out = set()
     for p in paths:
         parts = p.split("/")
         for i in range(1, len(parts) + 1):
             out.add("/".join(parts[:i]))
-    return tuple(sorted(out, key=PATHS.index))
+    return tuple(sorted(out, key=PATHS[vcs].index))
 
 
-def trees(k):
+def trees(k, vcs="bzr"):
     seen = set()
     out = []
+    files = [p for p in PATHS[vcs] if vcs == "bzr" or ENTRY[vcs][p].kind != "directory"]
     for n in range(0, k + 1):
-        for comb in itertools.combinations(PATHS, n):
-            t = close_under_parents(comb)
+        for comb in itertools.combinations(files, n):
+            t = close_under_parents(comb, vcs)
             if t not in seen:
                 seen.add(t)
                 out.append(t)
-    full = tuple(PATHS)
+    full = tuple(PATHS[vcs])
     if full not in seen:
         out.append(full)
     return out
 
 
-def expected_listing(tree_paths, subdir):
+def expected_listing(tree_paths, subdir, vcs="bzr"):
     """{relative path: (kind, bytes|target, exec)} of the sub-tree, from the declaration."""
     sd = (subdir or "").rstrip("/")
     out = {}
@@ -98,7 +120,7 @@ def expected_listing(tree_paths, subdir):
             rel = p[len(sd) + 1:]
         else:
             rel = p
-        e = ENTRY[p]
+        e = ENTRY[vcs][p]
         if e.kind == "file":
             out[rel] = ("file", e.content, bool(e.exec))
         elif e.kind == "directory":
@@ -256,42 +278,55 @@ def _write(base, p, e):
         os.chmod(full, 0o755 if e.exec else 0o644)
 
 
-def build_tree(tree_paths):
-    """Two real commits in a fresh dirstate tree / 2a repository on /dev/shm (MemoryTree, which
-    mc.world uses, cannot hold non-ASCII names); returns (RevisionTree of the second, dir)."""
+def build_tree(tree_paths, vcs="bzr"):
+    """Two real commits in a fresh dirstate tree / 2a repository (or a git tree / repository)
+    on /dev/shm (MemoryTree, which mc.world uses, cannot hold non-ASCII names); returns
+    (RevisionTree of the second, dir)."""
     from mc import wt
-    tree = wt.make_tree("bzr")
+    tree = wt.make_tree(vcs)
     base = tree.basedir
-    spec2 = {p: ENTRY[p] for p in tree_paths}
+    entry = ENTRY[vcs]
+    spec2 = {p: entry[p] for p in tree_paths}
     # first revision: every second entry already there (some files with other content and exec
     # bit), so that the last-changed revision differs from entry to entry
     spec1 = {}
     for i, p in enumerate(tree_paths):
-        e = ENTRY[p]
+        e = entry[p]
         if "/" in p and p.rsplit("/", 1)[0] not in spec1:
             continue
-        if i % 2 == 0:
+        if i % 2 == 0 or (vcs == "git" and e.kind == "directory"):
             spec1[p] = e
         elif e.kind == "file" and i % 3 == 0:
             spec1[p] = F(e.fid, b"old " + e.content, not e.exec)
+    kw = dict(timezone=0, committer="C <c@example.com>", allow_pointless=True)
     for p in spec1:
         _write(base, p, spec1[p])
-    if spec1:
-        tree.add(list(spec1), ids=[spec1[p].fid for p in spec1])
-    tree.commit("one", rev_id=b"r1", timestamp=1_100_000_000.0, timezone=0, committer="C <c@example.com>",
-                allow_pointless=True)
-    new = [p for p in spec2 if p not in spec1]
-    for p in spec2:
-        _write(base, p, spec2[p])
-    if new:
-        tree.add(new, ids=[spec2[p].fid for p in new])
-    tree.commit("two", rev_id=b"r2", timestamp=1_200_000_000.0, timezone=0, committer="C <c@example.com>",
-                allow_pointless=True)
-    rt = tree.branch.repository.revision_tree(b"r2")
+    if vcs == "git":
+        # git versions no empty directories: a placeholder keeps the first commit non-empty
+        with open(os.path.join(base, "first-only"), "wb") as f:
+            f.write(b"removed in the second commit\n")
+        tree.smart_add([base])
+        tree.commit("one", timestamp=1_100_000_000.0, **kw)
+        tree.remove(["first-only"], keep_files=False)
+        for p in spec2:
+            _write(base, p, spec2[p])
+        tree.smart_add([base])
+        r2 = tree.commit("two", timestamp=1_200_000_000.0, **kw)
+    else:
+        if spec1:
+            tree.add(list(spec1), ids=[spec1[p].fid for p in spec1])
+        tree.commit("one", rev_id=b"r1", timestamp=1_100_000_000.0, **kw)
+        new = [p for p in spec2 if p not in spec1]
+        for p in spec2:
+            _write(base, p, spec2[p])
+        if new:
+            tree.add(new, ids=[spec2[p].fid for p in new])
+        r2 = tree.commit("two", rev_id=b"r2", timestamp=1_200_000_000.0, **kw)
+    rt = tree.branch.repository.revision_tree(r2)
     got = mw.dump_tree(rt, with_ids=False)
     want = mw.spec_dump(spec2, with_ids=False)
     if got != want:
-        raise HarnessError("revision tree differs from the declaration: %r vs %r" % (got, want))
+        raise HarnessError("%s revision tree differs from the declaration: %r vs %r" % (vcs, got, want))
     return rt, base
 
 
@@ -324,20 +359,23 @@ def _where(e):
     return "?"
 
 
-def configs(tree_paths, formats, roots):
-    dirs = {p for p in tree_paths if ENTRY[p].kind == "directory"}
+def configs(tree_paths, formats, roots, vcs="bzr", pft_formats=None):
+    dirs = {p for p in tree_paths if ENTRY[vcs][p].kind == "directory"}
     for fmt in formats:
         for root in (roots if fmt != "dir" else (None,)):
             for subdir in SUBDIRS:
                 if subdir and subdir.rstrip("/") not in dirs:
                     continue
                 for pft in (False, True):
+                    if pft and pft_formats is not None and fmt not in pft_formats:
+                        continue
                     yield fmt, root, subdir, pft
 
 
-def check_case(tree, tree_paths, fmt, root, subdir, pft, acc, audit=False):
+def check_case(tree, tree_paths, fmt, root, subdir, pft, acc, audit=False, vcs="bzr"):
     acc.n += 1
-    exp = expected_listing(tree_paths, subdir)
+    pre = "" if vcs == "bzr" else vcs + "/"
+    exp = expected_listing(tree_paths, subdir, vcs)
     tag = "export"
     try:
         members = export_once(tree, fmt, root, subdir, pft, tag)
@@ -346,26 +384,51 @@ def check_case(tree, tree_paths, fmt, root, subdir, pft, acc, audit=False):
     except HarnessError:
         raise
     except Exception as e:  # noqa
-        sig = "%s:%s:%s" % (fmt, type(e).__name__, _where(e))
-        acc.violation(sig, _detail(tree_paths, fmt, root, subdir, pft, None, str(e)[:200]))
+        sig = "%s%s:%s:%s" % (pre, fmt, type(e).__name__, _where(e))
+        acc.keep(sig, _detail(tree_paths, fmt, root, subdir, pft, None, str(e)[:200], vcs))
         return
     eff_root = ("name-of-" + tag) if root is None else root
     if fmt == "dir":
         eff_root = ""
     rel, outside = under_root(members, eff_root)
     if exp:
-        acc.nt((tree_paths, fmt, root, subdir, pft))
-    acc.outcomes.add((fmt, len(rel)))
+        acc.nt((vcs, tree_paths, fmt, root, subdir, pft))
+    acc.outcomes.add((vcs, fmt, len(rel)))
     if outside:
-        acc.violation("%s:member-outside-requested-root" % fmt,
-                      _detail(tree_paths, fmt, root, subdir, pft, outside[0], None))
+        acc.keep("%s%s:member-outside-requested-root" % (pre, fmt),
+                 _detail(tree_paths, fmt, root, subdir, pft, outside[0], None, vcs))
     for what, path in compare(fmt, rel, exp, tree_paths, subdir):
-        sig = "%s:%s" % (fmt, what)
-        acc.violation(sig, _detail(tree_paths, fmt, root, subdir, pft, path, None))
+        sig = "%s%s:%s" % (pre, fmt, what)
+        acc.keep(sig, _detail(tree_paths, fmt, root, subdir, pft, path, None, vcs))
 
 
-def _detail(tree_paths, fmt, root, subdir, pft, path, msg):
-    d = {"tree": list(tree_paths), "format": fmt, "root": root, "subdir": subdir,
+class Acc(par.Acc):
+    """keeps the smallest failing input per signature (par.Acc keeps only the first 200 violations)"""
+
+    def __init__(self):
+        super().__init__()
+        self.best = {}
+
+    @staticmethod
+    def key(d):
+        return (d["size"], d["tree"], str(d["root"]), str(d["subdir"]), d["per_file_timestamps"])
+
+    def keep(self, sig, d):
+        self.count("violations_raw")
+        k = self.key(d)
+        if sig not in self.best or k < self.best[sig][0]:
+            self.best[sig] = (k, d)
+
+    def merge(self, other):
+        super().merge(other)
+        for sig, (k, d) in getattr(other, "best", {}).items():
+            if sig not in self.best or k < self.best[sig][0]:
+                self.best[sig] = (k, d)
+        return self
+
+
+def _detail(tree_paths, fmt, root, subdir, pft, path, msg, vcs="bzr"):
+    d = {"vcs": vcs, "tree": list(tree_paths), "format": fmt, "root": root, "subdir": subdir,
          "per_file_timestamps": pft, "size": len(tree_paths)}
     if path is not None:
         d["path"] = path
@@ -377,14 +440,14 @@ def _detail(tree_paths, fmt, root, subdir, pft, path, msg):
 def _work(chunk):
     import warnings
     warnings.filterwarnings("ignore", "Duplicate name", UserWarning)
-    acc = par.Acc()
-    for idx, tree_paths, formats, roots in chunk:
-        tree, base = build_tree(tree_paths)
-        for fmt, root, subdir, pft in configs(tree_paths, formats, roots):
-            check_case(tree, tree_paths, fmt, root, subdir, pft, acc, audit=(idx < 4))
+    acc = Acc()
+    for idx, vcs, tree_paths, formats, roots, pft_formats in chunk:
+        tree, base = build_tree(tree_paths, vcs)
+        for fmt, root, subdir, pft in configs(tree_paths, formats, roots, vcs, pft_formats):
+            check_case(tree, tree_paths, fmt, root, subdir, pft, acc, audit=(idx < 4), vcs=vcs)
         shutil.rmtree(base, ignore_errors=True)
         if idx < 3:
-            acc.sample({"tree": list(tree_paths), "formats": list(formats), "roots": list(roots)})
+            acc.sample({"vcs": vcs, "tree": list(tree_paths), "formats": list(formats), "roots": list(roots)})
     return acc
 
 
@@ -392,24 +455,28 @@ def run(ctx):
     k = ctx.q(3, 4)
     formats = ctx.q(FORMATS_Q, FORMATS_T)
     roots = ctx.q((None, "r", ""), (None, "r", "", "r/s"))
+    # quick: per_file_timestamps only with one representative of each exporter (the compressed tars
+    # share tarball_generator with tar)
+    pft_formats = ctx.q(("dir", "tar", "zip"), None)
     ts = trees(k)
-    items = [(i, t, formats, roots) for i, t in enumerate(ts)]
-    acc = par.merge(par.pmap(_work, items, seed=ctx.seed, chunks_per_job=6))
-    best = {}
-    for sig, d in acc.violations:
-        key = (d["size"], d["tree"], str(d["root"]), str(d["subdir"]), d["per_file_timestamps"])
-        if sig not in best or key < best[sig][0]:
-            best[sig] = (key, d)
-    for sig in sorted(best):
-        ctx.violation(sig, best[sig][1])
+    gts = trees(ctx.q(2, 3), "git")
+    items = [(i, "bzr", t, formats, roots, pft_formats) for i, t in enumerate(ts)]
+    items += [(i, "git", t, formats, roots, pft_formats) for i, t in enumerate(gts)]
+    acc = Acc()
+    for a in par.pmap(_work, items, seed=ctx.seed, chunks_per_job=6):
+        acc.merge(a)
+    for sig in sorted(acc.best):
+        ctx.violation(sig, acc.best[sig][1])
     ctx.assumptions.append("zip: a symlink may be represented by a regular member NAME.lnk holding the target (breezy's "
-                           "representation); top-level paths starting with .bzr may be present or absent (special to the VCS); "
-                           "modification times are not part of the oracle")
+                           "representation); top-level paths starting with .bzr may be present or absent (special to the VCS; "
+                           "the same names inside a sub-directory are ordinary content); modification times are not part of the oracle")
     return {
         "evaluations": acc.n,
         "trees": len(ts),
+        "git_trees": len(gts),
         "max_entries_chosen": k,
-        "namespace": PATHS,
+        "namespace": PATHS["bzr"],
+        "git_namespace": PATHS["git"],
         "formats": list(formats),
         "roots": [repr(r) for r in roots],
         "subdirs": [repr(s) for s in SUBDIRS],
@@ -423,10 +490,11 @@ def run(ctx):
 
 def replay(ctx, data):
     d = data["first"]
-    acc = par.Acc()
-    tree, base = build_tree(tuple(d["tree"]))
+    acc = Acc()
+    vcs = d.get("vcs", "bzr")
+    tree, base = build_tree(tuple(d["tree"]), vcs)
     try:
-        check_case(tree, tuple(d["tree"]), d["format"], d["root"], d["subdir"], d["per_file_timestamps"], acc)
+        check_case(tree, tuple(d["tree"]), d["format"], d["root"], d["subdir"], d["per_file_timestamps"], acc, vcs=vcs)
     finally:
         shutil.rmtree(base, ignore_errors=True)
-    return not any(sig == data["signature"] for sig, _ in acc.violations)
+    return data["signature"] not in acc.best
